@@ -79,8 +79,11 @@ def gen_random(cls, rng, count):
         for j in range(rng.randint(15, 60) if n <= 5 else rng.randint(40, 120)):
             r = rng.random()
             a, b = rng.randrange(n), rng.randrange(n)
-            if r < 0.22:
+            if r < 0.16 or (r < 0.22 and dropped_any):
                 steps.append("ocon %d %d %d" % (a, b, rng.randint(0, 30)))
+            elif r < 0.22:
+                # lookups (is_connected both ways, a try_connect that may be refused): they must not retain handles
+                steps.append(rng.choice(["oqry %d %d" % (a, b), "oqry %d %d" % (a, b), "otry %d %d %d" % (a, b, rng.randint(0, 30))]))
             elif r < 0.30 and not dropped_any:
                 steps.append(rng.choice(["odis %d %d" % (a, keys[b]), "oiso %d" % a, "otry %d %d %d" % (a, b, rng.randint(0, 30))]))
             elif r < 0.38:
@@ -113,6 +116,58 @@ def gen_random(cls, rng, count):
                 steps.append("ouse %d" % rng.choice(ALL_SLOTS))
         steps += ["odrop %d" % s for s in ALL_SLOTS]
         cases.append(Case("own%sR%d" % (cls, ci), cls, steps, dict(kind="random-ownership-history")))
+    return cases
+
+
+def gen_lookup(cls, rng, count):
+    """cyclic structures on which every edge is looked up (is_connected / refused try_connect / disconnect+reconnect)
+    before everything is dropped: a lookup must not leave a node owning its neighbour"""
+    cases = []
+    for ci in range(count):
+        n = rng.randint(1, 5)
+        keys = rng.sample(range(1, 40), n)
+        steps = ["onew %d %d %d" % (i, keys[i], 100 + i) for i in range(n)]
+        shape = rng.choice(["ring", "ring", "two-cycles", "self-loops", "random", "hubs", "hubs"])
+        if shape == "hubs":
+            # nodes with many (9-14) outbound edges, parallel edges and self-loops included, pointing at each other
+            n = max(n, 2)
+            keys = rng.sample(range(1, 40), n)
+            steps = ["onew %d %d %d" % (i, keys[i], 100 + i) for i in range(n)]
+            edges = []
+            for hub in range(rng.randint(1, 2)):
+                edges += [(hub, rng.randrange(n)) for _ in range(rng.randint(9, 14))]
+            edges += [(0, 1), (1, 0)]
+            rng.shuffle(edges)
+        elif shape == "ring":
+            edges = [(i, (i + 1) % n) for i in range(n)]
+        elif shape == "two-cycles":
+            edges = [(i, j) for i in range(n) for j in range(n) if i != j and rng.random() < 0.6] or [(0, 0)]
+        elif shape == "self-loops":
+            edges = [(i, i) for i in range(n)] + [(rng.randrange(n), rng.randrange(n))]
+        else:
+            edges = [(rng.randrange(n), rng.randrange(n)) for _ in range(rng.randint(1, 8))]
+        steps += ["ocon %d %d %d" % (a, b, rng.randint(0, 30)) for (a, b) in edges]
+        if rng.random() < 0.4:
+            steps += ["ogra %d" % GRAPH_SLOT] + ["ogins %d %d" % (GRAPH_SLOT, i) for i in range(n) if rng.random() < 0.8]
+        for rnd in range(rng.randint(1, 3)):
+            order = list(edges)
+            rng.shuffle(order)
+            for (a, b) in order:
+                r = rng.random()
+                if r < 0.45:
+                    steps.append("oqry %d %d" % (a, b))
+                elif r < 0.85:
+                    steps.append("otry %d %d %d" % (a, b, rng.randint(0, 30)))
+                elif r < 0.93:
+                    steps += ["odis %d %d" % (a, keys[b]), "ocon %d %d %d" % (a, b, rng.randint(0, 30)), "oqry %d %d" % (a, b)]
+                else:
+                    steps.append("oqry %d %d" % (b, a))
+        if rng.random() < 0.25:
+            steps.append("oiso %d" % rng.randrange(n))
+        drops = list(ALL_SLOTS)
+        rng.shuffle(drops)
+        steps += ["odrop %d" % s for s in drops]
+        cases.append(Case("own%sL%d" % (cls, ci), cls, steps, dict(kind="lookups-on-cycles-then-drop", shape=shape)))
     return cases
 
 
